@@ -5,7 +5,9 @@ patch="$1"; shift
 cd /repo || exit 2
 if ! git diff --quiet; then echo "/repo has uncommitted changes"; exit 2; fi
 git apply "$patch" || { echo "patch does not apply"; exit 2; }
-trap 'git -C /repo checkout -- . ' EXIT
+# evidence files describe runs on the UNCHANGED tree: keep them out of the way of runs on a seeded change
+ev=$(mktemp -d /var/tmp/evidence.XXXXXX); cp -a /verif/evidence/. "$ev"/
+trap 'git -C /repo checkout -- . ; cp -a "$ev"/. /verif/evidence/; rm -rf "$ev"' EXIT
 for c in "$@"; do
   for seed in ${SEEDS:-1}; do
     ( cd /verif && VERIF_SEED=$seed timeout 1800 ./check "$c" --tier "${TIER:-quick}" 2>&1 | grep -E "^(VIOLATION|KNOWN|C[0-9]+ (quick|thorough)|CHECK-ERROR)" | cut -c1-300 )
